@@ -41,7 +41,7 @@ def demoOps : List Op :=
     .moveRel false 1 10 0,                                            -- folded into the queued Add
     .addObst false 2 [⟨20, 0⟩, ⟨24, 0⟩, ⟨24, 4⟩, ⟨20, 4⟩],
     .addObst true 3 [⟨50, 50⟩],
-    .newConn 4, .setEndpoint 4 .src ⟨-5, 2⟩, .setEndpoint 4 .tar ⟨40, 2⟩, .setEndpoint 4 .src ⟨-6, 2⟩,
+    .newConn 4, .setEndpoint 4 .src (.pt ⟨-5, 2⟩), .setEndpoint 4 .tar (.pt ⟨40, 2⟩), .setEndpoint 4 .src (.pt ⟨-6, 2⟩),
     .processTransaction,
     .moveAbs false 1 [⟨0, 10⟩, ⟨4, 10⟩, ⟨4, 14⟩, ⟨0, 14⟩] true,       -- pushes a move (firstMove = true)
     .moveRel false 1 1 1,                                             -- uses the QUEUED polygon
@@ -90,7 +90,7 @@ theorem noop_processActions (st : State) (hq : st.queue = []) : processActions s
   | mk scene queue useTxn =>
     simp only at hq
     subst hq
-    simp [processActions, sortActions, runPasses]
+    simp [processActions, sortActions, runPasses, genPinMoves]
 
 /-- **sort_irrelevant_for_scene.** On every reachable state the scene produced by the three loops of
     `processActions` does not depend on the order in which the queue is traversed: any permutation of
@@ -99,7 +99,7 @@ theorem noop_processActions (st : State) (hq : st.queue = []) : processActions s
     not observable through the scene.) -/
 theorem sort_irrelevant_for_scene (st : State) (h : Inv st) (l : List Action) (hp : l.Perm st.queue) :
     view (runPasses st.scene l) = view (processActions st).scene :=
-  runPasses_perm st.scene st.queue l hp h.uniq
+  (runPasses_perm st.scene st.queue l hp h.uniq).trans (view_runPasses_genPinMoves st.scene h.connFind _).symm
 
 example : Inv (run init (demoOps.take 16)) := queue_invariant _ (by decide)
 
@@ -172,6 +172,107 @@ theorem immediate_mode_fold_corner :
     legalRun init ops = true ∧ (run init ops).useTxn = false ∧ (run init ops).queue.length = 1 ∧
       (run init ops).scene.obsts.map (·.active) = [false] := by
   decide
+
+/-! ### connector ends attached to connection pins: the pin-move refresh inside `processActions` -/
+
+/-- **pin_move_never_overwrites.** The consolidation rule of `ActionInfo::addConnEndUpdate`: with
+    `isConnPinMoveUpdate = true` a list that already holds a change to that end is left EXACTLY as it is
+    (whatever the update carries); with `false` (a user change) the end gets the new ConnEnd. -/
+theorem pin_move_never_overwrites (us : List (End × CEnd)) (e : End) (p : CEnd) (h : ∃ u ∈ us, u.1 = e) :
+    addConnEndUpdate us e p true = us := by
+  unfold addConnEndUpdate
+  have : us.any (·.1 == e) = true := by
+    obtain ⟨u, hu, he⟩ := h
+    exact List.any_eq_true.2 ⟨u, hu, by simp [he]⟩
+  simp [this]
+
+example : addConnEndUpdate [(End.src, CEnd.pin 2 1)] .src (CEnd.pin 1 1) true = [(End.src, CEnd.pin 2 1)] ∧
+    addConnEndUpdate [(End.src, CEnd.pin 2 1)] .src (CEnd.pin 1 1) false = [(End.src, CEnd.pin 1 1)] := by decide
+
+/-- … and a user change always ends up as the value applied to that end -/
+theorem user_change_overwrites (us : List (End × CEnd)) (k : Conn) (e : End) (p : CEnd)
+    (hd : us.Pairwise fun u v => u.1 ≠ v.1) :
+    (k.applyUpdates (addConnEndUpdate us e p false)).getEnd e = some p := by
+  rw [applyUpdates_addConnEndUpdate us k e p hd]
+  cases e <;> rfl
+
+/-- **pin_moves_preserve_view.** On every reachable state: the pin-move updates that the first loop of
+    `processActions` queues (`ShapeRef::moveAttachedConns` / `JunctionRef::moveAttachedConns` for every connector
+    end attached to a moved obstacle, merged into the list being traversed with `isConnPinMoveUpdate = true`)
+    change NOTHING of what the transaction shows: same obstacles, same connector ends as the three loops
+    over the user's queue alone — a user change of the same end queued in this transaction stays in force, and
+    an end without one keeps the attachment it has. Hence the flush theorem: the router shows what the user's
+    queue promised. -/
+theorem pin_moves_preserve_view (st : State) (h : Inv st) :
+    view (runPasses st.scene (genPinMoves st.scene (sortActions st.queue)))
+        = view (runPasses st.scene (sortActions st.queue)) ∧
+      (runPasses st.scene (genPinMoves st.scene (sortActions st.queue))).obsts
+        = (runPasses st.scene (sortActions st.queue)).obsts ∧
+      view (processActions st).scene = pending st :=
+  ⟨view_runPasses_genPinMoves st.scene h.connFind _, obsts_runPasses_genPinMoves _ _, view_processActions st h⟩
+
+/-- **user_retarget_wins.** In every legal history: once the user has set end `e` of connector `c` to `p`
+    (a free point, or a pin class of any obstacle) and does not set that same end again, then — whatever else
+    the history does before and after, in the same transaction or in later ones, in either call order: moves
+    / resizes of the obstacle the end WAS attached to, of the obstacle it is NOW attached to, deletions,
+    other connectors' changes, transactions on or off — after every call the queue promises, and after
+    `processTransaction()` the router shows, exactly `p` at that end. In particular the internal pin-move
+    refresh of a moved shape never replaces the user's re-target by the old attachment. -/
+theorem user_retarget_wins (ops1 ops2 : List Op) (c : Nat) (e : End) (p : CEnd)
+    (hl : LegalHistory (ops1 ++ .setEndpoint c e p :: ops2))
+    (hlast : ∀ op ∈ ops2, ∀ q, op ≠ .setEndpoint c e q) :
+    (((pending (run init (ops1 ++ .setEndpoint c e p :: ops2))).conn c).map fun x => endOf x e) = some (some p) ∧
+    (((view (processTransaction (run init (ops1 ++ .setEndpoint c e p :: ops2))).scene).conn c).map
+        fun x => endOf x e) = some (some p) := by
+  unfold LegalHistory at hl
+  rw [legalRun_append, Bool.and_eq_true] at hl
+  obtain ⟨hl1, hl2⟩ := hl
+  simp only [legalRun, Bool.and_eq_true] at hl2
+  have hi1 := (run_spec init ops1 inv_init hl1).1
+  have hset := retarget_set (run init ops1) c e p hi1 hl2.1
+  have hi2 := (step_spec (run init ops1) _ hi1 hl2.1).1
+  have hrun := retarget_kept_run ops2 _ c e p hi2 hl2.2 hlast hset
+  have e0 : run init (ops1 ++ .setEndpoint c e p :: ops2)
+      = run (step (run init ops1) (.setEndpoint c e p)) ops2 := by
+    rw [run_append]; rfl
+  rw [e0]
+  have hi3 := (run_spec _ ops2 hi2 hl2.2).1
+  refine ⟨hrun, ?_⟩
+  rw [(processTransaction_spec _ hi3).2.2.1]
+  exact hrun
+
+/-- two shapes with a pin of class 1 each, a connector from pin 1 of shape 1 to a free point, a second
+    connector that stays attached to shape 1; then, in ONE transaction, shape 1 is moved and the first
+    connector's source is re-targeted to shape 2 — `pinOpsA`: move first, `pinOpsB`: re-target first -/
+def pinSetup : List Op :=
+  [ .addObst false 1 [⟨0, 0⟩, ⟨4, 0⟩, ⟨4, 4⟩, ⟨0, 4⟩], .newPin 1 1 1 (1/2),
+    .addObst false 2 [⟨20, 0⟩, ⟨24, 0⟩, ⟨24, 4⟩, ⟨20, 4⟩], .newPin 2 1 0 (1/2),
+    .newConn 3, .setEndpoint 3 .src (.pin 1 1), .setEndpoint 3 .tar (.pt ⟨40, 2⟩),
+    .newConn 4, .setEndpoint 4 .src (.pt ⟨-9, 9⟩), .setEndpoint 4 .tar (.pin 1 1),
+    .processTransaction ]
+def pinOpsA : List Op := pinSetup ++ [ .moveAbs false 1 [⟨0, 10⟩, ⟨4, 10⟩, ⟨4, 14⟩, ⟨0, 14⟩] false, .setEndpoint 3 .src (.pin 2 1) ]
+def pinOpsB : List Op := pinSetup ++ [ .setEndpoint 3 .src (.pin 2 1), .moveAbs false 1 [⟨0, 10⟩, ⟨4, 10⟩, ⟨4, 14⟩, ⟨0, 14⟩] false ]
+
+example : LegalHistory (pinOpsA ++ [.processTransaction]) ∧ LegalHistory (pinOpsB ++ [.processTransaction]) := by decide +kernel
+
+/-- the pin-move refresh really happens in these histories (the list the last loop runs over is not the
+    user's queue: connector 4 gets an entry of its own, connector 3's entry is left alone), and the result is
+    the user's re-target in both call orders; the second connector stays attached -/
+example :
+    genPinMoves (run init pinOpsA).scene (sortActions (run init pinOpsA).queue) ≠ sortActions (run init pinOpsA).queue ∧
+    (findConn (processTransaction (run init pinOpsA)).scene 3).map (·.src) = some (some (.pin 2 1)) ∧
+    (findConn (processTransaction (run init pinOpsB)).scene 3).map (·.src) = some (some (.pin 2 1)) ∧
+    (findConn (processTransaction (run init pinOpsA)).scene 4).map (·.dst) = some (some (.pin 1 1)) := by decide +kernel
+
+example : LegalHistory ((pinSetup ++ [.moveAbs false 1 [⟨0, 10⟩, ⟨4, 10⟩, ⟨4, 14⟩, ⟨0, 14⟩] false]) ++ .setEndpoint 3 .src (.pin 2 1) :: []) := by
+  decide +kernel
+
+example := (user_retarget_wins (pinSetup ++ [.moveAbs false 1 [⟨0, 10⟩, ⟨4, 10⟩, ⟨4, 14⟩, ⟨0, 14⟩] false]) [] 3 .src (.pin 2 1) (by decide +kernel) (by simp)).2
+
+/-- a transaction that leaves a connector end attached to a deleted obstacle is outside the model's domain -/
+example : ¬ LegalHistory (pinSetup ++ [.delete false 1, .processTransaction]) ∧
+    LegalHistory (pinSetup ++ [.delete false 1, .setEndpoint 3 .src (.pin 2 1), .setEndpoint 4 .tar (.pt ⟨9, 9⟩),
+                               .processTransaction]) := by decide +kernel
 
 /-! ### the route validity checker used by the driver (rectangles, exact rationals) -/
 
